@@ -274,6 +274,12 @@ func cmdScan(args []string) {
 				switch b.Cfg.Entry {
 				case "read":
 					var cfg *sse.ReadConfig
+					switch (b.Limit + len(cname)) % 3 { // "no configured size": a nil config, a zero one, a negative size
+					case 1:
+						cfg = &sse.ReadConfig{}
+					case 2:
+						cfg = &sse.ReadConfig{MaxEventSize: -1}
+					}
 					if b.Cfg.Max > 0 {
 						cfg = &sse.ReadConfig{MaxEventSize: scMax(b.Cfg.Max)}
 					}
@@ -419,9 +425,9 @@ func runConnCount(body io.Reader, buf []byte, maxSize int, delivered *int, warm 
 	}
 	q, _ := http.NewRequestWithContext(ctx, http.MethodGet, "http://verif.invalid/", http.NoBody)
 	cn := c.NewConnection(q)
-	if buf != nil || maxSize > 0 {
-		cn.Buffer(buf, maxSize)
-	}
+	// the last Buffer call is the one in force - also when it goes back to the defaults
+	cn.Buffer(make([]byte, 0, 17), 33)
+	cn.Buffer(buf, maxSize)
 	cn.SubscribeToAll(func(e sse.Event) {
 		if warm && e.Data == "warmup" && len(o.evs) == 0 && calls == 1 {
 			return
